@@ -337,6 +337,10 @@ func TestConcurrent(t *testing.T) {
 // letters, so prefixes of the needle recur in the haystack.
 var longAlphabets = [][]rune{
 	[]rune("abAB"), []rune("abcABC-: 0"), []rune("kKKsSſaA"), []rune("aAéÉσςΣ世"),
+	// ASCII characters next to the letter ranges and their case-bit twins
+	// (0x40/0x60, 0x5b..0x5f/0x7b..0x7f): equal under a lower-casing that
+	// only looks at bit 5, different under case folding.
+	[]rune("aAzZ@`[{\\|]}^~_\x7f"), []rune("@`[{mM"),
 }
 
 // foldLongProp covers operand lengths that the short generator never reaches:
@@ -372,7 +376,12 @@ var foldLongProp = vp.Register(vp.Prop[FoldCase]{
 				w[j] = foldPartner(t, w[j])
 			}
 		}
-		switch rapid.IntRange(0, 3).Draw(t, "break") {
+		switch rapid.IntRange(0, 4).Draw(t, "break") {
+		case 4: // the case bit of one ASCII character flipped (a match only if it is a letter)
+			at := rapid.IntRange(0, len(w)-1).Draw(t, "flipat")
+			if w[at] >= 0x40 && w[at] < 0x80 {
+				w[at] ^= 0x20
+			}
 		case 0: // a positive
 		case 1: // broken at the last rune
 			w[len(w)-1] = '#'
